@@ -264,6 +264,7 @@ func (r *rewriter) run() {
 		gos     []*ast.GoStmt
 		wgWaits []*ast.CallExpr
 		onces   []*ast.CallExpr
+		conds   []lockCall
 		lockers []lockCall
 	)
 	ast.Inspect(r.file, func(n ast.Node) bool {
@@ -358,10 +359,8 @@ func (r *rewriter) run() {
 						onces = append(onces, x)
 					} else if rn == "Locker" && (fn.Name() == "Lock" || fn.Name() == "Unlock") {
 						lockers = append(lockers, lockCall{x, fn.Name()})
-					} else if rn == "Cond" && fn.Name() == "Wait" {
-						r.rep.Warnings = append(r.rep.Warnings, r.site(x.Pos())+" sync.Cond.Wait is not simulated (a task parked in it stalls the run: watchdog, exit 2)")
-					} else if rn == "Map" {
-						r.rep.Warnings = append(r.rep.Warnings, r.site(x.Pos())+" sync.Map use (iteration order not controlled)")
+					} else if rn == "Cond" && (fn.Name() == "Wait" || fn.Name() == "Signal" || fn.Name() == "Broadcast") {
+						conds = append(conds, lockCall{x, fn.Name()})
 					}
 				case "sync/atomic":
 					atomics = append(atomics, x)
@@ -457,6 +456,26 @@ func (r *rewriter) run() {
 		}
 		c.Fun = sel("simrt", "OnceDo")
 		c.Args = []ast.Expr{arg, c.Args[0], siteLit(r.site(c.Pos()))}
+		r.rep.LockSites++
+		r.need["simrt"] = true
+		r.changed = true
+	}
+	// c.Wait() / c.Signal() / c.Broadcast() on a sync.Cond  ->  simrt.CondWait(c, site) ...
+	for _, lc := range conds {
+		se := lc.call.Fun.(*ast.SelectorExpr)
+		recv := se.X
+		if recvTypeName(r.info.TypeOf(recv)) != "Cond" {
+			r.rep.Warnings = append(r.rep.Warnings, r.site(lc.call.Pos())+" method of an embedded sync.Cond not simulated")
+			continue
+		}
+		var arg ast.Expr
+		if _, isPtr := r.info.TypeOf(recv).Underlying().(*types.Pointer); isPtr {
+			arg = recv
+		} else {
+			arg = &ast.UnaryExpr{Op: token.AND, X: recv}
+		}
+		lc.call.Fun = sel("simrt", "Cond"+lc.name)
+		lc.call.Args = []ast.Expr{arg, siteLit(r.site(lc.call.Pos()))}
 		r.rep.LockSites++
 		r.need["simrt"] = true
 		r.changed = true
